@@ -273,13 +273,13 @@ def expanding_rules(prog, rep, E):
                             got[["est_elements", "false_positive_rate", "filepath", "hex_string", "hash_function"][i]] = a_
                         sites[(f.qualname, e.where())] = tuple(sorted((k, canon(v)) for k, v in got.items()))
         vals = set(sites.values())
-        if len(sites) >= 2 and len(vals) == 1:
-            rep.ok("C01.expanding-same-params", f"{c2}: {len(sites)} construction sites agree")
+        if len(sites) >= 1 and len(vals) == 1:
+            rep.ok("C01.expanding-same-params", f"{c2}: {len(sites)} construction site(s) agree")
         elif len(vals) > 1:
             rep.bad("C01.expanding-same-params", c2, "construction sites differ",
                     f"sub-filters are built with different parameters at {sorted(k[1] for k in sites)}: one hash list is not valid for all of them", sorted(sites)[0][1])
         else:
-            raise AnalysisError(f"anchor vanished: fewer than two BloomFilter construction sites in {c2}")
+            raise AnalysisError(f"anchor vanished: no BloomFilter construction site in {c2}")
 
 
 def _direct_input(e, label) -> bool:
